@@ -4,6 +4,17 @@ ROOT = os.path.dirname(os.path.dirname(os.path.abspath(__file__)))
 props = [json.loads(l) for l in open(os.path.join(ROOT, "properties.jsonl"))]
 
 CHECKS = {
+ "C01": dict(
+   text="The lifecycle contract is a Lean acceptor over observed rows (drift_state, total, since, retraining_recs): Lean theorems show it decides the "
+        "declarative contract and that acceptance implies the user-facing clauses (total counts updates and never goes back, since advances by one "
+        "except on the update after a drift / when a kdq reference completes, no report before the warm-up of each detector kind, recommendations "
+        "end at the current sample); further theorems show the Lean detector models are accepted on every history. The same acceptor is executed "
+        "(via mdriver) on multi-drift traces of all 15 real detectors; a rejected row is a concrete failing input.",
+   note="Trusted: Lean kernel; the acceptor's table of warm-up rules and restart values (11 kinds, stated in Model/Lifecycle.lean) as the reading of the "
+        "property; input-derived signals (EDDM error count, ADWIN width from retraining_recs, kdq reference completion) reconstructed by the harness; "
+        "generators (boundary menus, piecewise-stationary streams) bound what the implementation runs see.",
+   technique="Lean 4 proof (acceptor decides the declarative contract; model traces accepted, by induction) + the Lean acceptor executed on implementation traces",
+   ref="§7 C01"),
  "C13": dict(
    text="Lean 4 theorems for all n and all parameters: majority/minimum/ordered verdict iff count rule, range, monotonicity; "
         "ConfirmedElection refines the documented per-member voter automaton, counters <= wait_time. Tied to election.py by an "
